@@ -194,13 +194,33 @@ def mapping_locals(fn, F=None):
                             kinds.add(SELF_FIELD_KIND[n["name"]])
                 if len(kinds) == 1:
                     out[st["pat"]["hid"]] = kinds.pop()
+    # a bundle of the maps: `let ms = IdMappings { funcs: &func_mapping, .. }` — (hid of ms, field) → kind
+    for st in walk(fn["body"]):
+        if st.get("k") == "Let" and st["pat"].get("k") == "Binding" and "init" in st:
+            lit = peel(st["init"])
+            while isinstance(lit, dict) and lit.get("k") == "AddrOf":
+                lit = peel(lit["a"])
+            if isinstance(lit, dict) and lit.get("k") == "Struct" and isinstance(lit.get("fields"), list) and "pats" not in lit:
+                for fname, val in lit["fields"]:
+                    if isinstance(val, dict):
+                        k_ = kind_of_expr(val, out)
+                        if k_:
+                            out[(st["pat"]["hid"], fname)] = k_
     return out
 
 
 def kind_of_expr(e, maps):
     e = peel(e)
+    while isinstance(e, dict) and (e.get("k") == "AddrOf" or (e.get("k") == "Unary" and e.get("op") == "*")):
+        e = peel(e["a"])
     if e.get("k") == "Path" and e.get("res", {}).get("r") == "local":
         return maps.get(e["res"]["hid"])
+    if e.get("k") == "Field":
+        b = peel(e["base"])
+        while isinstance(b, dict) and (b.get("k") == "AddrOf" or (b.get("k") == "Unary" and b.get("op") == "*")):
+            b = peel(b["a"])
+        if isinstance(b, dict) and b.get("k") == "Path" and b.get("res", {}).get("r") == "local":
+            return maps.get((b["res"]["hid"], e["name"]))
     return None
 
 
@@ -334,9 +354,17 @@ def emit_mapped(F, kinds=KINDS, names=False):
                     gets = [g for g in walk(asg["rhs"]) if g.get("k") == "MethodCall" and g["method"] == "get"]
                     if gets and sp_before(asg, c):
                         assigned = True
+            # shape A': `let m = match kind {Func => Some(&func_map), ..}; let idx = match m { Some(mm) => *mm.get(&export.index).., None => export.index }`
+            a2_ = peel(c["args"][2])
+            if not assigned and sel_hid is not None and a2_.get("k") == "Path" and a2_.get("res", {}).get("r") == "local":
+                for st in walk(body):
+                    if st.get("k") == "Let" and st["pat"].get("hid") == a2_["res"]["hid"] and isinstance(st.get("init"), dict) and sp_before(st, c):
+                        uses_sel = any(x.get("k") == "Path" and x.get("res", {}).get("hid") == sel_hid for x in walk(st["init"]))
+                        gets = [g for g in walk(st["init"]) if g.get("k") == "MethodCall" and g["method"] == "get"]
+                        if uses_sel and gets:
+                            assigned = True
             # shape B: `let idx = match export.kind { Func => *func_map.get(..), .. }; exports.export(.., idx)`
             idx_from_dispatch = False
-            a2_ = peel(c["args"][2])
             if a2_.get("k") == "Path" and a2_.get("res", {}).get("r") == "local":
                 for st in walk(body):
                     if st.get("k") == "Let" and st["pat"].get("hid") == a2_["res"]["hid"] and st.get("init") is em:
@@ -451,6 +479,17 @@ def emit_mapped(F, kinds=KINDS, names=False):
                         if loop.get("k") == "Match" and loop.get("src") == "ForLoopDesugar" and root_hid is not None and \
                                 any(x.get("k") == "Path" and x.get("res", {}).get("hid") == root_hid for x in walk(loop["scrut"])):
                             fixes += [x for x in walk(loop) if x.get("k") == "MethodCall" and x["method"] == "fix_id_mapping"]
+                        # iterator form: `X.exprs.iter_mut().for_each(|e| e.fix_id_mapping(..))` — the for_each call stands for
+                        # the loop when the closure applies the fix to its element unconditionally
+                        if loop.get("k") == "MethodCall" and loop["method"] == "for_each" and root_hid is not None and loop.get("args") and \
+                                peel(loop["args"][0]).get("k") == "Closure" and \
+                                any(x.get("k") == "Path" and x.get("res", {}).get("hid") == root_hid for x in walk(loop["recv"])):
+                            clo = peel(loop["args"][0])
+                            for fm in walk(clo["body"]):
+                                if fm.get("k") == "MethodCall" and fm["method"] == "fix_id_mapping":
+                                    pth = path_to(clo["body"], fm) or []
+                                    if not any(isinstance(n_, dict) and n_.get("k") in ("If", "Match") for n_, _ in pth[:-1]):
+                                        fixes.append(loop)
                     if not fixes:
                         ok, why = False, "fix_id_mapping is never applied to the converted expression"
                         break
@@ -595,6 +634,50 @@ def name_index(F):
     return r
 
 
+def _miss_reported_to_loud_caller(body, g, m, none_arm):
+    """the lookup `g` sits in an inlined helper whose `None` arm *returns* the miss (`None => Err(old)` / `None => None` as the
+    helper's value) and every call of the helper fails loudly on that value: `if helper(..).is_err() { panic!() }`,
+    `if let Err(e) = helper(..) { panic!(..) }`, `helper(..).unwrap()/expect(..)`, or a match whose Err/None arm diverges."""
+    tail = peel(none_arm["body"])
+    while isinstance(tail, dict) and tail.get("k") == "Block" and not tail.get("stmts") and tail.get("expr") is not None:
+        tail = peel(tail["expr"])
+    miss_variant = None
+    if isinstance(tail, dict) and tail.get("k") == "Call" and (tail.get("fres") or {}).get("variant") in ("Err",):
+        miss_variant = "Err"
+    if isinstance(tail, dict) and tail.get("k") == "Path" and (tail.get("res") or {}).get("variant") == "None":
+        miss_variant = "None"
+    if miss_variant is None:
+        return False
+    # innermost inlined call that contains the lookup, and whose helper body's value is the match
+    holder = None
+    for c in walk(body):
+        if c.get("k") in ("Call", "MethodCall") and isinstance(c.get("inlined"), dict) and any(x is g for x in walk(c["inlined"])):
+            if holder is None or any(x is c for x in walk(holder["inlined"])):
+                holder = c
+    if holder is None:
+        return False
+    hb = peel(holder["inlined"]["body"])
+    while isinstance(hb, dict) and hb.get("k") == "Block" and not hb.get("stmts") and hb.get("expr") is not None:
+        hb = peel(hb["expr"])
+    if hb is not m:
+        return False
+    test = {"Err": ("is_err",), "None": ("is_none",)}[miss_variant]
+    for n in walk(body):
+        if n.get("k") == "MethodCall" and peel(n.get("recv") or {}) is holder and n["method"] in ("unwrap", "expect"):
+            return True
+        if n.get("k") == "If" and diverges(n["then"]):
+            c_ = peel(n["cond"])
+            if c_.get("k") == "MethodCall" and c_["method"] in test and peel(c_["recv"]) is holder:
+                return True
+            if c_.get("k") == "LetExpr" and peel(c_["init"]) is holder and c_["pat"].get("variant") == miss_variant:
+                return True
+        if n.get("k") == "Match" and peel(n.get("scrut") or {}) is holder:
+            for a_ in n["arms"]:
+                if a_["pat"].get("variant") == miss_variant and (a_["body"].get("ty") == "!" or diverges(a_["body"])):
+                    return True
+    return False
+
+
 def miss_loud(F):
     r = RuleResult("R-MISS-LOUD",
                    "every lookup in an old→new index map fails loudly when the entry is missing (the None continuation diverges, or `.unwrap()`); no unwrap_or/default/silent skip. Reviewed exception: the start function (warn + start section dropped, no index emitted)")
@@ -622,6 +705,8 @@ def miss_loud(F):
                     for arm in m["arms"]:
                         if arm["pat"].get("variant") == "None" or arm["pat"].get("k") == "Wild":
                             if arm["body"].get("ty") == "!":
+                                verdict = "diverges"
+                            elif _miss_reported_to_loud_caller(fn["body"], g, m, arm):
                                 verdict = "diverges"
                             else:
                                 verdict = "silent:" + ("warn" if any("warn" in (x.get("exp") or []) for x in walk(arm["body"])) else "fallthrough")
@@ -875,7 +960,18 @@ def tag_emit(F):
         return False
     for node in walk(fn["body"]):
         if node.get("k") == "Call" and (node.get("callee") or "").endswith("::add_injection"):
-            g = any(pol in (True, False) and holds(pol, c) for pol, c in guard_conditions(fn["body"], node))
+            def pat_holds(pc):
+                # `if let (true, Some(tag)) = (pull_side_effects, x.get_tag())`: the flag is matched against the literal true
+                pat, scrut = pc
+                scrut = peel(scrut)
+                if scrut.get("k") == "Tup" and pat.get("k") == "Tuple" and len(pat.get("pats") or []) == len(scrut["elems"]):
+                    for sub, el in zip(pat["pats"], scrut["elems"]):
+                        if is_ps(el) and sub.get("k") in ("Lit", "Expr") and "Bool(true)" in str(sub):
+                            return True
+                if is_ps(scrut) and pat.get("k") in ("Lit", "Expr") and "Bool(true)" in str(pat):
+                    return True
+                return False
+            g = any((pol in (True, False) and holds(pol, c)) or (pol == "pat" and pat_holds(c)) for pol, c in guard_conditions(fn["body"], node))
             r.ob(g, {"add_injection guarded by pull_side_effects": g})
             if not g:
                 r.violate("%s | unguarded add_injection" % fn["path"], F.loc(fn, node), "side-effect record is produced even when side effects were not requested")
@@ -983,6 +1079,16 @@ def tag_emit(F):
                 if "tag" in pn and len(n2["args"]) == len(pn):
                     v = peel(n2["args"][pn.index("tag")])
                     isnone = v.get("k") == "Path" and v.get("res", {}).get("variant") == "None"
+                    # as for struct literals: `import.tag.clone()` propagates another parsed entity's tag (itself None on this
+                    # path), and a parameter forwarded to the constructor is judged at this function's own call sites
+                    if not isnone:
+                        vv = v
+                        while isinstance(vv, dict) and vv.get("k") == "MethodCall" and vv["method"] in ("clone", "to_owned", "cloned") and not vv.get("args"):
+                            vv = peel(vv["recv"])
+                        if isinstance(vv, dict) and vv.get("k") == "Field" and vv["name"] == "tag":
+                            isnone = True
+                        if isinstance(vv, dict) and vv.get("k") == "Path" and vv.get("res", {}).get("r") == "local" and any(pp["pat"].get("hid") == vv["res"].get("hid") for pp in f["params"]):
+                            isnone = True
                     n_tag += 1
                     r.ob(isnone, {"fn": p, "calls": tgt["name"], "tag_arg_is_None": isnone})
                     if not isnone:
@@ -1512,6 +1618,8 @@ def emit_all(F):
                 return "KINDTEST"
             if n_.get("k") == "Match" and any(t in (n_.get("scrut_ty") or "") for t in ("FuncKind", "GlobalKind", "MemKind")):
                 return "KINDTEST"
+            if n_.get("k") == "Let" and "else" in n_ and any(t in str((n_.get("pat") or {}).get("adt") or "") for t in ("FuncKind", "GlobalKind", "MemKind")):
+                return "KINDTEST"       # `let FuncKind::Local(l) = f.kind() else { continue }`
             return None
         evs = {ev for ev, st in paths(body, cl) if st in ("fall", "cont")}
         if not any("SINK" in ev for ev in evs):
